@@ -398,6 +398,10 @@ entropy_read(uint8_t * buf, size_t buflen)
 				buf[i] = (i < ent[ent_pos].len) ? ent[ent_pos].data[i] : 0;
 		ent_pos++;
 	}
+	/* a failed read leaves unspecified bytes in the buffer (util/entropy.c may have filled part of
+	 * it before the error), not what the caller had there */
+	if (fail)
+		drv_junk(buf, buflen);
 	return (fail ? -1 : 0);
 }
 
